@@ -421,3 +421,271 @@ Proof.
   intros Hs Ec. destruct (ItInv_reachable s Hs) as [_ HE]. specialize (HE t). rewrite Ec in HE.
   simpl in HE. apply andb_true_iff in HE as [HE _]. apply Nat.eqb_eq in HE. auto.
 Qed.
+
+(* ------------------------------------------------------------------ the stop marker is never lost *)
+Definition is_marker (i : instr) : bool := match i with IMarker | IMarkerPut => true | _ => false end.
+Definition marker_pending (k : list instr) : bool := existsb is_marker k.
+
+Fixpoint marker_before_ret (k : list instr) : bool :=
+  match k with
+  | [] => false
+  | i :: k' => if is_marker i then true else if is_ret i then false else marker_before_ret k'
+  end.
+
+Definition allowed (i : instr) : bool :=
+  match i with
+  | ISetStop | IAcq | IClear | IIterChk _ | IEmStop _ | IEmJoin _ | IClearEm | IRel | IMarker | IMarkerPut
+  | IRet _ | IRetX _ => true
+  | _ => false
+  end.
+
+(* between stop()'s flag set and its marker put only the instructions of unschedule_all occur;
+   a flag set is always followed by its marker put *)
+Fixpoint mseg (k : list instr) : bool :=
+  match k with
+  | [] => true
+  | i :: k' => (negb (marker_before_ret k') || allowed i)
+               && (match i with ISetStop => marker_before_ret k' | _ => true end) && mseg k'
+  end.
+
+Definition nomr (i : instr) : bool := negb (is_marker i) && negb (is_ret i).
+
+Lemma mbr_app new k : forallb nomr new = true -> marker_before_ret (new ++ k) = marker_before_ret k.
+Proof.
+  induction new as [|i new IH]; simpl; auto. intros H. apply andb_true_iff in H as [H1 H2].
+  unfold nomr in H1. apply andb_true_iff in H1 as [Ha Hb].
+  destruct (is_marker i); try discriminate. destruct (is_ret i); try discriminate. auto.
+Qed.
+
+Lemma mseg_tail i k : mseg (i :: k) = true -> mseg k = true.
+Proof. simpl. intros H. apply andb_true_iff in H. tauto. Qed.
+
+Lemma mseg_app new k : forallb (fun i => nomr i && allowed i && negb (match i with ISetStop => true | _ => false end)) new = true ->
+  mseg k = true -> mseg (new ++ k) = true.
+Proof.
+  induction new as [|i new IH]; simpl; auto. intros H Hk. apply andb_true_iff in H as [H1 H2].
+  apply andb_true_iff in H1 as [H1 H3]. apply andb_true_iff in H1 as [H1 H4].
+  rewrite IH by auto. rewrite H4, orb_true_r. simpl. destruct i; simpl in H3; try discriminate; reflexivity.
+Qed.
+
+Lemma mseg_app_nomarker new k : forallb (fun i => nomr i && negb (match i with ISetStop => true | _ => false end)) new = true ->
+  marker_before_ret k = false -> mseg k = true -> mseg (new ++ k) = true.
+Proof.
+  induction new as [|i new IH]; simpl; auto. intros H Hm Hk. apply andb_true_iff in H as [H1 H2].
+  apply andb_true_iff in H1 as [H1 H3].
+  rewrite IH by auto. rewrite mbr_app by (clear - H2; induction new; simpl in *; auto; apply andb_true_iff in H2 as [Ha Hb];
+                                          apply andb_true_iff in Ha as [Ha _]; rewrite Ha, IHnew; auto).
+  rewrite Hm. simpl. destruct i; simpl in H3; try discriminate; reflexivity.
+Qed.
+
+Lemma mseg_unwind k : mseg k = true -> mseg (unwind k) = true.
+Proof.
+  induction k as [|i k IH]; simpl; auto. intros H. apply andb_true_iff in H as [H1 H2].
+  destruct i; simpl in *; auto.
+  - (* IRel *) rewrite IH by auto. rewrite !andb_true_r. apply orb_true_r.
+  - (* IRet *) rewrite H1, H2. reflexivity.
+Qed.
+
+Lemma mp_unwind k : ret_ahead k = true -> marker_before_ret k = false -> marker_pending (unwind k) = marker_pending k.
+Proof.
+  unfold marker_pending. induction k as [|i k IH]; simpl; auto. intros Hr H.
+  destruct i; simpl in *; try discriminate; auto; try (rewrite IH by auto; reflexivity).
+Qed.
+
+Lemma exec_mseg s t i k inp s' : exec s t i k inp = Some s' -> mseg (i :: k) = true -> mseg (cont s' t) = true.
+Proof.
+  intros H Hm. pose proof (mseg_tail _ _ Hm) as Hk.
+  simpl in Hm. apply andb_true_iff in Hm as [Hm _]. apply andb_true_iff in Hm as [Hm Hs].
+  destruct i; crush_exec H; rewrite cont_set_cont_same;
+    try (apply mseg_unwind; exact Hk); try exact Hk;
+    simpl in Hm; rewrite ?orb_false_r in Hm; try apply negb_true_iff in Hm.
+  all: try (apply (mseg_app_nomarker [_] k); [reflexivity | exact Hm | exact Hk]).
+  all: try (apply (mseg_app_nomarker [_; _] k); [reflexivity | exact Hm | exact Hk]).
+  all: try (apply (mseg_app_nomarker [_; _; _] k); [reflexivity | exact Hm | exact Hk]).
+  all: try (apply (mseg_app_nomarker [_; _; _; _] k); [reflexivity | exact Hm | exact Hk]).
+  all: try reflexivity.
+  - destruct (fixed s), c; simpl; rewrite ?Hm, ?Hk; reflexivity.
+  - apply mseg_app; [fb_solve|]. apply (mseg_app [_]); [reflexivity|]. apply mseg_app; [fb_solve|].
+    apply (mseg_app [_; _]); [reflexivity|]. exact Hk.
+  - apply mseg_app_nomarker; [fb_solve | simpl; exact Hm | simpl; rewrite Hm, Hk; reflexivity].
+  - simpl. rewrite Hk. rewrite orb_true_r. reflexivity.
+  - apply mseg_app_nomarker; [fb_solve | simpl; exact Hm | simpl; rewrite Hm, Hk; reflexivity].
+Qed.
+
+Lemma exec_dstop s t i k inp s' : exec s t i k inp = Some s' -> dstop s' = dstop s \/ i = ISetStop.
+Proof. intros H. destruct i; crush_exec H; rewrite dstop_set_cont; auto. Qed.
+
+Lemma exec_queue s t i k inp s' : exec s t i k inp = Some s' ->
+  queue s' = queue s \/ (i = IMarkerPut /\ queue s' = queue s ++ [QStop]) \/ (i = DGet /\ exists x, queue s = x :: queue s').
+Proof.
+  intros H. destruct i; crush_exec H; rewrite queue_set_cont; cbn; auto.
+  - right; right. split; auto. eexists. eauto.
+  - right; right. split; auto. eexists. eauto.
+Qed.
+
+Definition MsInv (s : state) : Prop := forall t, mseg (cont s t) = true.
+
+Lemma MsInv_reachable s : reachable s -> MsInv s.
+Proof.
+  apply reach_P.
+  - intros s0 t i k inp s' HM Ec H t'. destruct (tid_eq_dec t' t) as [->|Hne].
+    + eapply exec_mseg; eauto. rewrite <- Ec. apply HM.
+    + destruct (exec_others _ _ _ _ _ _ H t' Hne) as [E | [_ [_ [_ E]]]]; rewrite E; auto.
+  - intros s0 n c HM Ec t'. destruct (tid_eq_dec t' (TA n)) as [->|Hne].
+    + rewrite cont_set_cont_same. destruct (fixed s0), c; reflexivity.
+    + rewrite cont_set_cont_other by congruence. destruct t'; [apply (HM TD) | apply (HM (TA n0))].
+  - intros s0 l s' HM Hl H t. destruct (em_step_frame _ _ _ Hl H) as [Ec _]. rewrite Ec. apply HM.
+  - intros t; destruct t; reflexivity.
+Qed.
+
+Definition MarkerInv (s : state) : Prop :=
+  dstop s = true ->
+  In QStop (queue s) \/ (exists t, marker_pending (cont s t) = true) \/ after_d (dcont s) <> [DGet].
+
+Lemma mp_app a b : marker_pending (a ++ b) = marker_pending a || marker_pending b.
+Proof. apply existsb_app. Qed.
+
+(* thread t keeps a pending marker across one of its own steps, unless it puts it (or finds it queued) *)
+Lemma exec_marker_self s t i k inp s' : P3 s -> MsInv s -> ItInv s -> cont s t = i :: k -> exec s t i k inp = Some s' ->
+  marker_pending (i :: k) = true ->
+  marker_pending (cont s' t) = true \/ In QStop (queue s').
+Proof.
+  intros [HL [[HR HN] HD]] HMs [_ HIt] Ec H Hp.
+  pose proof (HMs t) as Hms. rewrite Ec in Hms.
+  pose proof (HR t) as Hro. rewrite Ec in Hro.
+  destruct HL as [_ [HLB _]]. pose proof (HLB t) as HBt. rewrite Ec in HBt. destruct HBt as [_ [_ Hlast]].
+  unfold marker_pending in Hp. simpl in Hp.
+  destruct (is_marker i) eqn:Em.
+  - destruct i; simpl in Em; try discriminate; simpl in H.
+    + (* IMarker *) destruct (last_is (queue s) QStop) eqn:El; inversion H; subst.
+      * right. rewrite queue_set_cont. unfold last_is in El. destruct (rev (queue s)) as [|y r] eqn:Er; try discriminate.
+        destruct y; simpl in El; try discriminate. apply in_rev. rewrite Er. left; auto.
+      * left. rewrite cont_set_cont_same. reflexivity.
+    + (* IMarkerPut *) inversion H; subst. right. rewrite queue_set_cont. simpl. apply in_or_app. right. left; auto.
+  - simpl in Hp. left.
+    simpl in Hms. apply andb_true_iff in Hms as [Hms _]. apply andb_true_iff in Hms as [Hms _].
+    simpl in Hro. apply andb_true_iff in Hro as [Hro _].
+    assert (Hmp : forall new, marker_pending (new ++ k) = true) by (intros new; rewrite mp_app; unfold marker_pending; rewrite Hp; apply orb_true_r).
+    destruct i; simpl in Em; try discriminate; crush_exec H; rewrite cont_set_cont_same;
+      try exact Hp; try (apply (Hmp [_])); try (apply (Hmp [_; _])); try (apply (Hmp [_; _; _])); try (apply (Hmp [_; _; _; _]));
+      try apply Hmp;
+      try (simpl in Hms, Hro; rewrite mp_unwind; [exact Hp | exact Hro | ]; destruct (marker_before_ret k); simpl in Hms; [discriminate | reflexivity]).
+    all: try (assert (k = []) by (eapply last_only_terminal; eauto); subst k; simpl in Hp; discriminate).
+    + repeat (rewrite mp_app; simpl). unfold marker_pending. rewrite Hp. rewrite ?orb_true_r. reflexivity.
+    + exfalso. specialize (HIt t). rewrite Ec in HIt. simpl in HIt. apply andb_true_iff in HIt as [HIt _]. rewrite Nat.eqb_sym in HIt. congruence.
+    + rewrite mp_app. simpl. unfold marker_pending. rewrite Hp. apply orb_true_r.
+    + rewrite mp_app. simpl. unfold marker_pending. rewrite Hp. apply orb_true_r.
+Qed.
+
+Lemma mbr_mp k : marker_before_ret k = true -> marker_pending k = true.
+Proof.
+  unfold marker_pending. induction k as [|i k IH]; simpl; try discriminate. intros H.
+  destruct (is_marker i); auto. destruct (is_ret i); try discriminate. auto.
+Qed.
+
+Lemma MarkerInv_exec s t i k inp s' : P3 s -> MsInv s -> ItInv s -> MarkerInv s -> cont s t = i :: k ->
+  exec s t i k inp = Some s' -> MarkerInv s'.
+Proof.
+  intros HP HMs HIt HM Ec H Hstop'.
+  destruct HP as [HL [[HR HN] HD]].
+  assert (HP3 : P3 s) by (split; [exact HL | split; [split; assumption | exact HD]]).
+  destruct (exec_dstop _ _ _ _ _ _ H) as [Eds | Ei].
+  2:{ subst i. right; left. exists t. simpl in H. inversion H; subst. rewrite cont_set_cont_same.
+      pose proof (HMs t) as Hm. rewrite Ec in Hm. simpl in Hm. apply andb_true_iff in Hm as [Hm _].
+      apply andb_true_iff in Hm as [_ Hm]. apply mbr_mp; auto. }
+  rewrite Eds in Hstop'. destruct (HM Hstop') as [D1 | [[t1 D2] | D3]].
+  - (* a marker is queued *)
+    destruct (exec_queue _ _ _ _ _ _ H) as [E | [[_ E] | [Ei [x E]]]].
+    + left. rewrite E. auto.
+    + left. rewrite E. apply in_or_app. auto.
+    + subst i. rewrite E in D1. destruct D1 as [Ex | D1]; [|left; auto].
+      subst x. right; right.
+      assert (t = TD) by (destruct t; auto; specialize (HN n); rewrite Ec in HN; discriminate).
+      subst t. simpl in H. rewrite E in H. inversion H; subst. simpl. discriminate.
+  - (* a marker put is pending *)
+    destruct (tid_eq_dec t1 t) as [->|Hne].
+    + rewrite Ec in D2. destruct (exec_marker_self _ _ _ _ _ _ HP3 HMs HIt Ec H D2) as [E|E]; [right; left; eauto | left; auto].
+    + right; left. exists t1. destruct (exec_others _ _ _ _ _ _ H t1 Hne) as [E | [_ [Et [Hds _]]]].
+      * rewrite E. auto.
+      * exfalso. subst t1. destruct HL as [_ [_ [HDI _]]]. simpl in D2. rewrite (HDI Hds) in D2. discriminate.
+  - (* the dispatcher is not waiting in get *)
+    right; right. destruct (tid_eq_dec t TD) as [->|Hne].
+    + simpl in Ec. destruct (is_d i) eqn:Hd.
+      * assert (Ea : after_d (dcont s) = i :: k) by (rewrite Ec; simpl; rewrite Hd; reflexivity).
+        destruct HL as [_ [HLB _]]. pose proof (HLB TD) as HB. simpl in HB. rewrite Ec in HB. destruct HB as [_ [_ Hlast]].
+        unfold DlInv in HD. rewrite Ea in HD.
+        destruct i; simpl in Hd; try discriminate; simpl in H.
+        -- (* DCheck *) rewrite Hstop' in H. inversion H; subst. simpl. discriminate.
+        -- (* DExitI *) inversion H; subst. simpl. discriminate.
+        -- (* DGet *) exfalso. apply D3. rewrite Ea. f_equal. eapply last_only_terminal; eauto.
+        -- (* DSnap *) destruct HD as [[Hi _] | [[E _] | [[E _] | [E _]]]];
+             [destruct Hi as [Hi|[Hi|[Hi|Hi]]]; discriminate | | discriminate | discriminate].
+           inversion E; subst. destruct (dcur s) as [[e w]|]; try discriminate. inversion H; subst. simpl. discriminate.
+        -- (* DTurns *) destruct HD as [[Hi _] | [[E _] | [[E _] | [E _]]]];
+             [destruct Hi as [Hi|[Hi|[Hi|Hi]]]; discriminate | discriminate | | discriminate].
+           inversion E; subst. destruct (dtodo s); destruct (dcur s) as [[e w]|]; try discriminate;
+             try (inversion H; subst; simpl; discriminate).
+           destruct inp as [| |hh calls]; try discriminate. destruct (memN hh (h :: l)); try discriminate.
+           destruct (memN hh (hset w (hauto w (handlers s)))); inversion H; subst; simpl;
+             rewrite ?after_d_app by fb_solve; simpl; discriminate.
+        -- (* DTaskDone *) destruct HD as [[Hi _] | [[E _] | [[E _] | [E _]]]];
+             [destruct Hi as [Hi|[Hi|[Hi|Hi]]]; discriminate | discriminate | discriminate | ].
+           inversion E; subst. inversion H; subst. simpl. discriminate.
+      * assert (Hro : raise_ok (i :: k) = true) by (rewrite <- Ec; apply (HR TD)).
+        destruct (exec_nond _ _ _ _ _ _ Hd H Hro) as [_ [_ [_ Ea]]]. simpl in Ea. rewrite Ea.
+        rewrite Ec in D3. simpl in D3. rewrite Hd in D3. exact D3.
+    + destruct (exec_others _ _ _ _ _ _ H TD (not_eq_sym Hne)) as [E | [_ [_ [_ E]]]]; simpl in E; rewrite E; auto.
+      simpl. discriminate.
+Qed.
+
+Definition P5 (s : state) : Prop := P3 s /\ MsInv s /\ ItInv s /\ MarkerInv s.
+
+Lemma em_step_queue s l s' : em_label l = true -> step s l = Some s' ->
+  queue s' = queue s \/ exists x, queue s' = queue s ++ [x].
+Proof.
+  intros Hl H. destruct l; try discriminate; simpl in H;
+    repeat match type of H with context [match ?x with _ => _ end] => destruct x eqn:? end;
+    try discriminate; inversion H; subst; clear H; cbn; eauto.
+Qed.
+
+Lemma P5_reachable s : reachable s -> P5 s.
+Proof.
+  apply reach_P.
+  - intros s0 t i k inp s' [H3 [HMs [HIt HM]]] Ec H.
+    split; [eapply P3_exec; eauto|]. split; [|split].
+    + intros t'. destruct (tid_eq_dec t' t) as [->|Hne].
+      * eapply exec_mseg; eauto. rewrite <- Ec. apply HMs.
+      * destruct (exec_others _ _ _ _ _ _ H t' Hne) as [E | [_ [_ [_ E]]]]; rewrite E; auto.
+    + destruct H3 as [HL _]. eapply ItInv_exec; eauto.
+    + eapply MarkerInv_exec; eauto.
+  - intros s0 n c [H3 [HMs [[HB HE] HM]]] Ec.
+    split; [apply P3_call; auto|]. split; [|split].
+    + intros t'. destruct (tid_eq_dec t' (TA n)) as [->|Hne].
+      * rewrite cont_set_cont_same. destruct (fixed s0), c; reflexivity.
+      * rewrite cont_set_cont_other by congruence. destruct t'; [apply (HMs TD) | apply (HMs (TA n0))].
+    + split; intros t'.
+      * destruct (tid_eq_dec t' (TA n)) as [->|Hne].
+        -- rewrite cont_set_cont_same. apply ItB_no_iter. destruct (fixed s0), c; reflexivity.
+        -- rewrite cont_set_cont_other by congruence. destruct t'; [apply (HB TD) | apply (HB (TA n0))].
+      * rewrite emitters_set_cont. simpl emitters. destruct (tid_eq_dec t' (TA n)) as [->|Hne].
+        -- rewrite cont_set_cont_same. apply no_iter_iters_eq. destruct (fixed s0), c; reflexivity.
+        -- rewrite cont_set_cont_other by congruence. destruct t'; [apply (HE TD) | apply (HE (TA n0))].
+    + intros Hst. rewrite dstop_set_cont in Hst. simpl in Hst. destruct (HM Hst) as [D1 | [[t1 D2] | D3]].
+      * left. rewrite queue_set_cont. exact D1.
+      * right; left. exists t1. destruct (tid_eq_dec t1 (TA n)) as [->|Hne].
+        -- rewrite Ec in D2. discriminate.
+        -- rewrite cont_set_cont_other by congruence. destruct t1; exact D2.
+      * right; right. exact D3.
+  - intros s0 l s' [H3 [HMs [[HB HE] HM]]] Hl H.
+    destruct (em_step_frame _ _ _ Hl H) as [Ec [_ [_ [_ [_ [Eds [_ [Eem _]]]]]]]].
+    split; [eapply P3_em; eauto|]. split; [|split].
+    + intros t. rewrite Ec. apply HMs.
+    + split; intros t; rewrite Ec, ?Eem; auto.
+    + intros Hst. rewrite Eds in Hst. destruct (HM Hst) as [D1 | [[t1 D2] | D3]].
+      * left. destruct (em_step_queue _ _ _ Hl H) as [E | [x E]]; rewrite E; auto. apply in_or_app. auto.
+      * right; left. exists t1. rewrite Ec. exact D2.
+      * right; right. specialize (Ec TD). simpl in Ec. rewrite Ec. exact D3.
+  - split; [apply P3_init|]. split; [intros t; destruct t; reflexivity|]. split.
+    + split; intros t; destruct t; try reflexivity; apply ItB_no_iter; reflexivity.
+    + intros Hst. discriminate.
+Qed.
